@@ -86,6 +86,13 @@ func (w *c20World) prepareBaseline(lines []string) (out []string) {
 		// The sandbox has no eth0; the loopback interface carries the
 		// 127.0.0.0/8 subnet that the example binds to.
 		"interface: 'eth0'", "interface: 'lo'",
+		// forward.NewHandler performs the initial upstream health check over
+		// the network; a closed loopback port refuses at once, public
+		// resolvers would block for the whole (possibly huge) timeout.
+		"'tcp://1.1.1.1:53'", "'tcp://127.0.0.1:1'",
+		"'8.8.4.4:53'", "'127.0.0.1:1'",
+		"'1.1.1.1:53'", "'127.0.0.1:1'",
+		"address: '8.8.8.8:53'", "address: '127.0.0.1:1'",
 	)
 	for _, l := range lines {
 		out = append(out, repl.Replace(l))
@@ -608,7 +615,7 @@ func (w *c20World) buildServers(ctx context.Context, b *builder, o *c20Outcome) 
 					Handler:        c20Upstream(),
 					Metrics:        mtrc,
 					Disposer:       b.cloner,
-					RequestContext: dnssvc.VerifNewContextConstructor(conf.DNS.HandleTimeout.Duration),
+					RequestContext: &c20CtxCons{inner: dnssvc.VerifNewContextConstructor(conf.DNS.HandleTimeout.Duration)},
 					ListenConfig:   lc,
 					Name:           string(srv.Name),
 					Addr:           "127.0.0.1:53",
@@ -632,7 +639,9 @@ func (w *c20World) buildServers(ctx context.Context, b *builder, o *c20Outcome) 
 				}
 				plain++
 				where = "ServerDNS tcp exchange"
-				pan = vrt.Catch(func() { answered = c20TCPExchange(ctx, l, inner) })
+				pan = vrt.Catch(func() {
+					answered = c20TCPExchange(ctx, l, inner, baseConf.RequestContext.(*c20CtxCons))
+				})
 				if pan != "" {
 					dnsserver.VerifRelease(l)
 
@@ -657,16 +666,49 @@ func (w *c20World) buildServers(ctx context.Context, b *builder, o *c20Outcome) 
 	o.obs("tcp %d/%d", answered, plain)
 }
 
+// c20CtxCons is the real request-context constructor of dnssvc that
+// additionally remembers the cancel functions for the teardown.
+type c20CtxCons struct {
+	inner   dnsserver.ContextConstructor
+	mu      sync.Mutex
+	cancels []context.CancelFunc
+}
+
+func (c *c20CtxCons) New() (ctx context.Context, cancel context.CancelFunc) {
+	ctx, cancel = c.inner.New()
+	c.mu.Lock()
+	defer c.mu.Unlock()
+	c.cancels = append(c.cancels, cancel)
+
+	return ctx, cancel
+}
+
+func (c *c20CtxCons) cancelAll() {
+	c.mu.Lock()
+	defer c.mu.Unlock()
+	for _, f := range c.cancels {
+		f()
+	}
+}
+
 // c20TCPExchange starts the server on the in-memory listener, sends two
 // pipelined queries over one connection and counts the answers.  It runs in a
 // synctest bubble: no virtual time passes while the client is active, so even
 // 1 ns timeouts do not fire before the server has read and answered; time only
 // advances if the server blocks for good.
-func c20TCPExchange(ctx context.Context, l dnssvc.Listener, inner *c20Listener) (answered int) {
+func c20TCPExchange(
+	ctx context.Context,
+	l dnssvc.Listener,
+	inner *c20Listener,
+	cc *c20CtxCons,
+) (answered int) {
 	if err := l.Start(ctx); err != nil {
 		panic(fmt.Errorf("starting: %w", err))
 	}
 	defer func() {
+		// Tear down: requests that are still waiting (e.g. for a pipeline slot
+		// that never comes) are cancelled so that the bubble can end.
+		cc.cancelAll()
 		sctx, cancel := context.WithTimeout(context.Background(), time.Hour)
 		defer cancel()
 		_ = l.Shutdown(sctx)
@@ -695,6 +737,9 @@ func c20TCPExchange(ctx context.Context, l dnssvc.Listener, inner *c20Listener) 
 		_, err := cli.Write(buf)
 		werr <- err
 	}()
+	// The handler answers at once; ten minutes of *virtual* time only pass if
+	// every goroutine of the server is blocked for good.
+	_ = cli.SetReadDeadline(time.Now().Add(10 * time.Minute))
 	for i := 0; i < 2; i++ {
 		var ln uint16
 		if err := binary.Read(cli, binary.BigEndian, &ln); err != nil {
